@@ -623,7 +623,7 @@ func init() {
 	register(&Property{
 		ID:          "C03",
 		Level:       "exploration",
-		Rule:        "scenario = generated CRS tree (assembly programs biased to map-driven constructs: ambiguous directive lines, 1-3 suffix pairs incl. cascades and overlapping keys, nested / cyclic / computed definitions, flag sets, include-except; a chained rule may have data files for several of its links) x 1-2 commands out of {generate, generate -, update, update --all, compare, compare --all, compare -o github, format, format --all, format --check} x 3 (quick) / 8 (thorough) seeded schedules (per-site default decision + <=4 per-event overrides; identity, reverse, rotations, seeded shuffles), each also with another simulated instant, unrelated environment variables and (30%) the tree relocated under another parent directory; oracle: exit status, stdout and the final tree equal those of the identity schedule; two runs under the identity schedule equal each other; (12%) a run of the same instrumented sources built with the race detector reports no data race. Non-trivial = at least one map-range event with >=2 elements received a non-identity order; distinct = distinct (world, commands, schedules).",
+		Rule:        "scenario = generated CRS tree (assembly programs biased to map-driven constructs: ambiguous directive lines, 1-3 suffix pairs incl. cascades and overlapping keys, nested / cyclic / computed definitions, flag sets, include-except; a chained rule may have data files for several of its links; (3%) a block of 520-700 entries) x 1-2 commands out of {generate, generate -, update, update --all, compare, compare --all, compare -o github, format, format --all, format --check} x 3 (quick) / 8 (thorough) seeded schedules (per-site default decision + <=4 per-event overrides; identity, reverse, rotations, seeded shuffles), each also with another simulated instant, unrelated environment variables, another CPU budget (GOMAXPROCS) and (30%) the tree relocated under another parent directory; oracle: exit status, stdout and the final tree equal those of the identity schedule; two runs under the identity schedule equal each other; (12%) a run of the same instrumented sources built with the race detector reports no data race. Non-trivial = at least one map-range event with >=2 elements received a non-identity order; distinct = distinct (world, commands, schedules).",
 		Gen:         genC03,
 		Eval:        evalC03,
 		QuickChecks: 320, ThoroughChecks: 6000, Timeout: 20 * time.Second,
